@@ -890,6 +890,23 @@ func genEditCase(rng *rand.Rand, n int, seed int64) *CaseDesc {
 		}
 		c.Shape = "unnamed:3"
 	}
+	// generated providers (GenerateFromInjectionChain): in one case out of three some providers are listed as generators
+	// that replace themselves; the generator's own NonFinal mark agrees with the provider's or not.  Decided from the seed
+	// (the random stream is as before).
+	if h := uint64(seed) * 0x9e3779b97f4a7c15 >> 17; h%3 == 0 {
+		for i, p := range c.Provs {
+			g := (h >> (8 + 3*uint(i%16))) & 7
+			if g < 3 {
+				p.Gen = true
+				p.GenNF = p.NonFinal != (g == 0)
+			}
+		}
+		if h%2 == 0 && L >= 2 {
+			// a generator listed last whose provider is NonFinal
+			p := c.Provs[L-1]
+			p.Gen, p.GenNF, p.NonFinal = true, false, true
+		}
+	}
 	c.Ops = []Op{{Kind: "invoke"}}
 	return c
 }
